@@ -413,10 +413,10 @@ pub fn run(tier: &str) -> i32 {
     rep.assume("M_rep is written from the C14 statement and README (Repeat member instructions / Permeating repeat / Repeat trait instruction params); token-level comparison, in-process expansion");
     let quick = tier == "quick";
     let caps = Caps::from_env(if quick { 150.0 } else { 1500.0 });
-    run_space(&MemberRep { max_members: if quick { 3 } else { 4 }, enum_host: false }, if quick { None } else { None }, &caps, &rep);
-    run_space(&MemberRep { max_members: if quick { 2 } else { 3 }, enum_host: true }, if quick { Some(5) } else { Some(7) }, &caps, &rep);
-    run_space(&TraitRep { max_instr: if quick { 3 } else { 4 }, enum_host: false }, if quick { Some(6) } else { Some(9) }, &caps, &rep);
-    run_space(&TraitRep { max_instr: if quick { 3 } else { 4 }, enum_host: true }, if quick { Some(5) } else { Some(8) }, &caps, &rep);
+    run_space(&MemberRep { max_members: if quick { 3 } else { 4 }, enum_host: false }, if quick { None } else { Some(9) }, &caps, &rep);
+    run_space(&MemberRep { max_members: if quick { 2 } else { 3 }, enum_host: true }, if quick { Some(5) } else { Some(6) }, &caps, &rep);
+    run_space(&TraitRep { max_instr: if quick { 3 } else { 4 }, enum_host: false }, if quick { Some(6) } else { Some(7) }, &caps, &rep);
+    run_space(&TraitRep { max_instr: if quick { 3 } else { 4 }, enum_host: true }, if quick { Some(5) } else { Some(6) }, &caps, &rep);
     rep.finish()
 }
 
